@@ -219,7 +219,7 @@ class C15(Prop):
         "columnSubset_ok_of_few_pk", "reasonableRF_cons_shape_partial", "wussNopseudo_pairs", "wussFull_total", "flushLeftInserts_inplace", "kh_roundtrip_pairs", "transformed_wellformed", "generated_wf_side_conditions",
         # round 6
         "reasonableRF_cons_no_alphabet", "reasonableRF_cons_digital", "reasonableRF_cons_text_eq_digital", "reasonableRF_cons_text_shape", "generated_text_cells", "reasonableRF_threshold_exact",
-        "setStr_frame", "setStr_stores", "formatStr_is_setStr", "markFragments_threshold_exact", "sample_wellformed", "setStr_wellformed", "generated_abcOk", "history_wellformed", "exRfText_inv")]
+        "setStr_frame", "setStr_stores", "formatStr_is_setStr", "markFragments_threshold_exact", "sample_wellformed", "setStr_wellformed", "generated_abcOk", "history_wellformed", "exRfText_inv", "history_wellformed_markup")]
     claimed = True
     technique = ("Lean 4 proof about an executable hand model of esl_msa.c / esl_wuss.c (in-place compaction loop = filter-by-mask on every aligned field, well-formedness invariants, "
                  "tag-table rebuild of SequenceSubset, mode-conversion and reverse-complement identities over alphabet tables regenerated from the tree, 27-stack WUSS reader = 27 Dyck recognisers, "
